@@ -238,3 +238,31 @@ harness!(c06_q_bvd0, 2, {
     }
     assert!(a.into_raw() == ra, "C06: rotating the empty vector changed it");
 });
+
+// ---- concrete (length, amount) pairs: whole-word rotations of heap vectors with spare words -----
+// Cheap (everything but the contents is concrete) and aimed at word-granular fast paths, which a
+// symbolic-amount harness can only reach through an expensive case split.
+macro_rules! h_rot_conc {
+    ($name:ident, $unw:literal, $a:expr, $op:ident, $model:ident, $k:literal) => {
+        harness!($name, $unw, {
+            let (mut a, ra) = $a;
+            let n = ra.len;
+            let v = ra.v;
+            w!(!v.is_zero() && v != crate::big::Big::mask(n), "neither all zeros nor all ones");
+            a.$op($k);
+            let r = a.into_raw();
+            assert!(r.len == n, "C06: rotation changed the length");
+            assert!(r.v == $model(v, n, $k), "C06: storage after rotation != cyclic rotation of the value");
+            assert!(r.len <= r.cap, "C06: len > capacity");
+        });
+    };
+}
+h_rot_conc!(c06_q_rotl_bvd3_l128_k64, 8, bvd3(128), rotl, rotl_model, 64);
+h_rot_conc!(c06_q_rotr_bvd3_l128_k64, 8, bvd3(128), rotr, rotr_model, 64);
+h_rot_conc!(c06_q_rotl_bvd2_l64_k64, 6, bvd2(64), rotl, rotl_model, 64);
+h_rot_conc!(c06_q_rotr_bvd3_l128_k128, 8, bvd3(128), rotr, rotr_model, 128);
+h_rot_conc!(c06_q_rotl_bvd4_l192_k128, 10, bvd4(192), rotl, rotl_model, 128);
+h_rot_conc!(c06_q_rotr_bvdyn3_l128_k64, 8, bvdyn3(128), rotr, rotr_model, 64);
+h_rot_conc!(c06_q_rotl_bvd3_l128_k0, 8, bvd3(128), rotl, rotl_model, 0);
+h_rot_conc!(c06_q_rotl_bvd3_l100_k64, 8, bvd3(100), rotl, rotl_model, 64);
+h_rot_conc!(c06_q_rotr_f64x3_l128_k64, 8, f64x3(128), rotr, rotr_model, 64);
